@@ -197,6 +197,9 @@ func checkC11(e *core.Env) {
 			}
 			if r.Intn(2) == 0 {
 				sc.Ret = Ret{How: "recverr"}
+			} else if r.Intn(6) == 0 {
+				// an error whose status claims OK and says nothing: still a failed call with a trailer frame
+				sc.Ret = Ret{How: "okcoded", Msg: ""}
 			}
 			if r.Intn(4) == 0 {
 				// trailer metadata, sometimes of a kind the trailer message cannot carry: the reply must
